@@ -452,6 +452,11 @@ class Judge:
         return cands, corner
 
     # -- value ----------------------------------------------------------------
+    @staticmethod
+    def value_tolerance(f, p):
+        """Rounding of the closed form + effect of the 1e-12 tolerance on the physical point itself."""
+        return RTOL * f.abs_value(p) + np.abs(f.jac(np.real(p))) @ (1e-12 * (1.0 + np.abs(p))) + 1e-300
+
     def judge_value(self, i, fname, obs, cands, corner):
         """Return the index of the candidate matched by the returned value (None when none matches)."""
         rep = self.rep
@@ -465,8 +470,7 @@ class Judge:
         o = o.reshape(-1)
         for k, p in enumerate(cands):
             exp = f.value(p)
-            tol = RTOL * (f.abs_value(p) + 1e-300)
-            if np.all(np.abs(o - exp) <= tol):
+            if np.all(np.abs(o - exp) <= self.value_tolerance(f, p)):
                 if corner and len(cands) > 1:
                     rep.observe(f"corner:{corner}:evaluated-at-{'rounded' if k == 0 else 'unrounded'}-point")
                 return k
@@ -475,7 +479,7 @@ class Judge:
         if self.is_linear_shortcut_corner(fname):
             for pu in self.unrounded:
                 if any(same_point(self.ref.round(pu), c) for c in cands) and \
-                        np.all(np.abs(o - f.value(pu)) <= RTOL * (f.abs_value(pu) + 1e-300)):
+                        np.all(np.abs(o - f.value(pu)) <= self.value_tolerance(f, pu)):
                     sig = "C01:linear-shortcut:value-of-unrounded-point-under-rounded-key:norm+int+noround"
                     break
         self.viol(sig, "returned value == original function at the physical point", i,
